@@ -533,4 +533,20 @@ def check_construction(call, kind):
   for (fn, ft, q) in fs:
     if q == '' and fn not in given and ft != 'expr_context':
       probs.append('required field %r (%s) missing' % (fn, ft))
+  # a `*` field holds a list: the tree is walked (printed, copied, mapped) more
+  # than once, so a one-shot iterable or an unordered collection is malformed
+  vals = dict(zip(names, call.args))
+  for k in call.keywords:
+    if k.arg:
+      vals[k.arg] = k.value
+  for (fn, ft, q) in fs:
+    v = vals.get(fn)
+    if v is None:
+      continue
+    if q == '*' and isinstance(v, (ast.GeneratorExp, ast.Set, ast.SetComp, ast.Dict,
+                                   ast.DictComp)):
+      probs.append('list field %r built as %s' % (fn, type(v).__name__))
+    if q == '*' and isinstance(v, ast.Call) and core.dotted(v.func) in (
+        'iter', 'map', 'filter', 'zip', 'reversed', 'set', 'frozenset'):
+      probs.append('list field %r built by %s(...)' % (fn, core.dotted(v.func)))
   return probs
